@@ -3,7 +3,10 @@
    calc_permutation_matrix, convert_list_by_permutation_matrix), quara/objects/operators.py (tensor_product,
    _tensor_product_hs_hs, _tensor_product_State_State/_Povm_Povm/_Gate_Gate/_MProcess_MProcess), composite_system.py (sort by name).
    Generic in the commutative ring.  Vectors / matrices are functions (Core/Mat.v); sizes are explicit.
-   [mode]: Coded = sizes of I_head / I_tail computed as the code does (reduce(add, ...)), Fixed = the product. *)
+   [mode]: Fixed = the code AFTER the repairs fixes/C07-left-permutation-matrix-size-product (sizes of I_head / I_tail are
+   the PRODUCT of the neighbouring sizes, reduce(mul, ...)) and fixes/C07-mprocess-tensor-outcome-layout (hs1 outer loop);
+   this is the model the harness compares quara with.  Coded = the code AS IT WAS BEFORE those repairs (reduce(add, ...),
+   hs2 outer loop); it is kept only for the refutation theorems and to let the harness name the defect if it returns. *)
 From Coq Require Import Arith List Bool ZArith Lia.
 From QV.Core Require Import OF Sums Mat.
 Import ListNotations.
@@ -17,7 +20,7 @@ Inductive kind := KVec | KRows | KHs.   (* State-like (one-sided), Povm-like (ro
 
 Definition prodn (l : list nat) : nat := fold_right Nat.mul 1%nat l.
 Definition sumnat (l : list nat) : nat := fold_right Nat.add 0%nat l.
-(* reduce(add, l) in the code; the intended value is the product *)
+(* Coded: reduce(add, l), as coded before fix C07-left-permutation-matrix-size-product; Fixed: reduce(mul, l) *)
 Definition agg (m : mode) (l : list nat) : nat := match m with Coded => sumnat l | Fixed => prodn l end.
 
 (* _check_cross_system_position: first position whose name is smaller than its predecessor's *)
@@ -198,8 +201,8 @@ Fixpoint eval (k : kind) (md : mode) (fuel : nat) (t : texp) : pres robj :=
       end
   end.
 (* executed version of [tp_obj]: permutation matrices are represented by their index maps
-   (Proofs/C07_Perm.v: calc_perm_map_correct, tp_obj_fast_eq), the first part of _tensor_product_hs_hs by its
-   closed form kron (Proofs: hs_hs_core_kron) *)
+   (Proofs/C07_Main.v: calc_perm_map_correct; Proofs/C07_Fast.v: tp_obj_fast_rel, eval_fast_sound, eval_fast_total),
+   the first part of _tensor_product_hs_hs by its closed form kron (Proofs/C07_Perm.v: hs_hs_core_kron) *)
 Definition tp_obj_fast (memo : nat -> (nat -> nat) -> nat -> nat) (k : kind) (md : mode) (fuel : nat) (o1 o2 : robj) : pres robj :=
   let names := o_names o1 ++ o_names o2 in
   let rs := o_rs o1 ++ o_rs o2 in
@@ -238,9 +241,11 @@ Fixpoint eval_fast (memo : nat -> (nat -> nat) -> nat -> nat) (k : kind) (md : m
 Definition fold_tp (k : kind) (md : mode) (fuel : nat) (o : robj) (os : list robj) : pres robj :=
   fold_left (fun acc e => match acc with PErr c => PErr c | POk a => tp_obj k md fuel a e end) os (POk o).
 
-(* ---- MProcess (x) MProcess outcome layout.  The code appends  for hs2 in elem2.hss: for hs1 in elem1.hss,
-   i.e. the product of outcomes (i1, i2) is stored at  i2 * n1 + i1 ; shape = shape1 + shape2 and hs(index)
-   uses the row-major serial index.  [mp_slot] = which (i1, i2) the code stores at serial position s. *)
+(* ---- MProcess (x) MProcess outcome layout.  shape = shape1 + shape2 and hs(index) uses the row-major serial index.
+   [mp_slot] = which pair (i1, i2) of operand outcomes is stored at serial position s.
+   mp_slot_fixed: the repaired code appends  for hs1 in elem1.hss: for hs2 in elem2.hss  (position i1 * n2 + i2);
+   mp_slot_coded: AS CODED BEFORE fix C07-mprocess-tensor-outcome-layout,  for hs2 in elem2.hss: for hs1 in elem1.hss
+   (position i2 * n1 + i1). *)
 Definition mp_slot_coded (n1 n2 s : nat) : nat * nat := ((s mod n1)%nat, (s / n1)%nat).
 Definition mp_slot_fixed (n1 n2 s : nat) : nat * nat := ((s / n2)%nat, (s mod n2)%nat).
 Definition mp_slot (m : mode) := match m with Coded => mp_slot_coded | Fixed => mp_slot_fixed end.
